@@ -158,7 +158,7 @@ func vhC41Rotation() {
 	for i := 0; i < n; i++ {
 		ip := net.IPv4(10, 0, 0, byte(i+1))
 		r.addrs = append(r.addrs, net.IPAddr{IP: ip})
-		c41Behaviour[ip.String()+":80"] = vChoose("endpoint", 3)
+		c41Behaviour[ip.String()+":80"] = vChoose("endpoint", 5)
 	}
 	_ = tried
 	// a name lookup that takes 400 ms is part of the call's time budget
@@ -178,7 +178,7 @@ func vhC41Rotation() {
 			want = (idx + k) % n
 			break
 		}
-		if b == 2 {
+		if b >= 2 { // hangs; the expiry is reported in one of the three ways
 			timedOut = true
 			break
 		}
